@@ -159,12 +159,22 @@ def profile_of(trees: Dict[str, ast.Module], shas: Optional[Dict[str, str]] = No
     return out
 
 
+_CACHE: Dict[str, Optional[dict]] = {}
+
+
 def load_profile() -> Optional[dict]:
-    try:
-        with open(PROFILE, encoding="utf-8") as fh:
-            return json.load(fh)
-    except OSError:
-        return None
+    if "p" not in _CACHE:
+        try:
+            with open(PROFILE, encoding="utf-8") as fh:
+                _CACHE["p"] = json.load(fh)
+        except OSError:
+            _CACHE["p"] = None
+    return _CACHE["p"]
+
+
+def baseline_class_names() -> Set[str]:
+    p = load_profile() or {}
+    return {c for m in p.values() for c in m["attrs"]}
 
 
 def _wj(a: Counter, b: Counter) -> float:
@@ -182,7 +192,7 @@ def _match(missing: Dict[str, Counter], new: Dict[str, List[Counter]], same_home
         for n, fns in new.items():
             s = max(_wj(fm, fn) for fn in fns)
             if same_home(m, n):
-                s = min(1.0, s + 0.1)
+                s = s + 0.1
             score[(m, n)] = s
     out: Dict[str, str] = {}
     for m in missing:
@@ -291,8 +301,17 @@ def _names_round(trees: Dict[str, ast.Module], profile: dict, same: Set[str]) ->
             new_by_name.setdefault(k[1].split(".")[-1], []).append(k)
         new_tok = {k: func_tokens(cur[k]) for k in new_all}
 
+        # who calls the new functions: a helper extracted from one function has that function as its only caller
+        callers: Dict[str, Set[Tuple[str, str]]] = {}
+        for k2, n2 in cur.items():
+            for t in (new_tok[k2] if k2 in new_tok else func_tokens(n2)):
+                if t.startswith("call:") and t[5:] in new_by_name:
+                    callers.setdefault(t[5:], set()).add(k2)
+        for nm_, ks in callers.items():          # a function that merely encloses the caller is not a second caller
+            callers[nm_] = {k2 for k2 in ks if not any(o[0] == k2[0] and o[1].startswith(k2[1] + ".") for o in ks)}
+
         def closure(k) -> Counter:
-            """tokens of k plus those of the not-in-profile functions it calls (rename + extract)"""
+            """tokens of k plus those of the not-in-profile functions only it calls (rename + extract)"""
             seen, acc, todo = {k}, Counter(), [k]
             while todo:
                 x = todo.pop()
@@ -300,7 +319,7 @@ def _names_round(trees: Dict[str, ast.Module], profile: dict, same: Set[str]) ->
                 for t in new_tok[x]:
                     if t.startswith("call:"):
                         for y in new_by_name.get(t[5:], []):
-                            if y not in seen and y[0] == k[0]:
+                            if y not in seen and y[0] == k[0] and len(callers.get(t[5:], ())) <= 1:
                                 seen.add(y)
                                 todo.append(y)
             return acc
@@ -350,7 +369,19 @@ def _names_round(trees: Dict[str, ast.Module], profile: dict, same: Set[str]) ->
                     cur_cls[(r2, mq + q2[len(nq):])] = cur_cls.pop((r2, q2), None)
         if applied and any(k not in cur and k[1].count(".") >= 1 for k in base_funcs):
             notes += _nested_round(trees, base_funcs, cur, changed_names)
-    # ---- attributes a class stores on self ---------------------------------------------------------------------------------------
+    notes += attr_round(trees, profile, base_func_names, base_attr_names)
+    return notes
+
+
+def attr_round(trees: Dict[str, ast.Module], profile: dict, base_func_names: Optional[Set[str]] = None,
+               base_attr_names: Optional[Set[str]] = None) -> List[str]:
+    """Attributes a class stores on self: those of the profile that are gone are matched, by how the methods use them, with those that
+    are new, and renamed back everywhere."""
+    notes: List[str] = []
+    if base_func_names is None:
+        base_func_names = {q.split(".")[-1] for p in profile.values() for q in p["funcs"]}
+    if base_attr_names is None:
+        base_attr_names = {a for p in profile.values() for c in p["attrs"].values() for a in c}
     for rel, p in profile.items():
         tree = trees.get(rel)
         if tree is None:
@@ -574,6 +605,15 @@ def resolve_locals(trees: Dict[str, ast.Module], profile: dict) -> List[str]:
                         mapping[n_] = o
             missing = [x for x in base["order"] if x not in now_names]
             new = [x for x in now["order"] if x not in base_names]
+            drift: List[str] = []
+            if new:
+                # a name that is still there but is now used for something else (sc -> scenario while scenario -> scenario_key):
+                # it takes part in the matching on both sides
+                drift = [x for x in base["order"] if x in now["order"] and x in now["uses"] and x in base["uses"]
+                         and _wj(Counter(base["uses"][x]), Counter(now["uses"][x])) < 0.3]
+                if drift:
+                    missing = [x for x in base["order"] if x in missing or x in drift]
+                    new = [x for x in now["order"] if x in new or x in drift]
             for _round in range(6):
                 if not missing or not new:
                     break
@@ -585,7 +625,9 @@ def resolve_locals(trees: Dict[str, ast.Module], profile: dict) -> List[str]:
                 for m in missing:
                     cm = Counter(base["uses"].get(m, []))
                     for n_ in new:
-                        score[(m, n_)] = 0.75 * _wj(cm, Counter(now["uses"].get(n_, []))) + 0.25 * (1 - abs(rank(missing, m) - rank(new, n_)))
+                        cn = Counter(now["uses"].get(n_, []))
+                        kinds = len(set(cm) & set(cn)) / max(1, len(set(cm) | set(cn)))       # the same kinds of use, however many of each
+                        score[(m, n_)] = 0.75 * max(_wj(cm, cn), 0.8 * kinds) + 0.25 * (1 - abs(rank(missing, m) - rank(new, n_)))
                 got = {}
                 for m in missing:
                     c = sorted(((score[(m, n_)], n_) for n_ in new), reverse=True)
@@ -605,6 +647,17 @@ def resolve_locals(trees: Dict[str, ast.Module], profile: dict) -> List[str]:
                 mapping.update(got)
                 missing = [m for m in missing if m not in got.values()]
                 new = [n_ for n_ in new if n_ not in got]
+            # a name may only be taken over if its present holder moves on as well (no two variables merged); x -> x says nothing
+            mapping = {k: v for k, v in mapping.items() if k != v}
+            for _ in range(len(mapping) + 1):
+                bad = [k for k, v in mapping.items() if v in now_names and v not in mapping]
+                if not bad:
+                    break
+                for k in bad:
+                    if mapping[k] in drift:
+                        mapping[mapping[k]] = mapping[k] + "__moved"     # the present holder has no counterpart in the profile: it steps aside
+                    else:
+                        del mapping[k]
             if not mapping:
                 continue
             _rename_locals(fn, mapping)
@@ -815,9 +868,52 @@ def resolve_moves(trees: Dict[str, ast.Module], profile: dict) -> List[str]:
                 import copy as _copy
                 d = _copy.deepcopy(found[2])
                 d._home_file = found[0]
+                d._absorbed = False
                 cdef.body.append(d)
+                if (found[0], found[1].name) not in base_classes:
+                    found[2]._absorbed = True         # a template method of a new base class is analysed in the classes that run it
                 notes.append("method %s of %s is inherited from %s (%s)" % (q, rel, found[1].name, found[0]))
                 break
+
+    # (c') a nested function of the profile that became a module-level function / method (same name): back into its parent
+    cur = current_funcs()
+    for rel, q in sorted(k for k in base_funcs if k not in cur and k[1].count(".") >= 1):
+        parent_q, g = q.rsplit(".", 1)
+        parent = cur.get((rel, parent_q))
+        if parent is None or (rel, parent_q) not in base_funcs or "." not in q:
+            continue
+        pcls, pnode = parent
+        if not isinstance(pnode, _FN):
+            continue
+        cands = [k for k in cur if k not in base_funcs and k[1].split(".")[-1] == g and k[1].count(".") <= 1
+                 and _wj(Counter(t for t in profile[rel]["funcs"][q] if not t.startswith("arity:")),
+                         Counter(t for t in func_tokens(cur[k][1]) if not t.startswith("arity:"))) >= 0.5]
+        # only where the parent calls it
+        called = [c for c in ast.walk(pnode) if isinstance(c, ast.Call) and ((isinstance(c.func, ast.Name) and c.func.id == g) or
+                                                                            (isinstance(c.func, ast.Attribute) and c.func.attr == g))]
+        if len(cands) != 1 or not called or q.count(".") < 1 or (rel, q) in cur:
+            continue
+        if parent_q.count(".") == 0 and pcls is not None and q.count(".") == 1:
+            continue          # a method, not a nested function: handled below
+        k = cands[0]
+        ncls, node = cur[k]
+        import copy as _copy
+        d = _copy.deepcopy(node)
+        d.decorator_list = []
+        d._home_file = k[0]
+        body = pnode.body
+        at = 1 if body and isinstance(body[0], ast.Expr) and isinstance(body[0].value, ast.Constant) and isinstance(body[0].value.value, str) else 0
+        body.insert(at, d)
+        is_method = "." in k[1] and not any(isinstance(x, ast.Name) and x.id == "staticmethod" for x in node.decorator_list)
+        for c in called:
+            recv = c.func.value if isinstance(c.func, ast.Attribute) else None
+            c.func = ast.copy_location(ast.Name(id=g, ctx=ast.Load()), c.func)
+            if is_method and recv is not None:
+                c.args = [recv] + list(c.args)
+            ast.fix_missing_locations(c)
+        node._absorbed = True
+        ast.fix_missing_locations(pnode)
+        notes.append("nested function %s of %s now lives at %s:%s" % (q, rel, k[0], k[1]))
 
     # (d) what is still missing: a function of another shape somewhere else (method <-> module-level function, possibly renamed)
     cur = current_funcs()
@@ -913,7 +1009,10 @@ def _put_back(trees, old_key, new_key, cur) -> Optional[str]:
             elif root == "*" and chain:
                 roles[i] = ("state", chain)
     if not roles:
-        return None
+        # a method that never needed its receiver, now a plain function: fine if every call is made from a method of the class
+        inside = {id(c) for m in cdef.body if isinstance(m, _FN) for c in ast.walk(m) if isinstance(c, ast.Call)}
+        if thread_sites or not calls or not all(id(c) in inside for c in calls):
+            return None
     recv_param = next((params[i] for i, r in roles.items() if r[0] == "recv"), None)
     mapping: Dict[str, ast.AST] = {}
     for i, (kind, chain) in roles.items():
@@ -1026,9 +1125,24 @@ def resolve_imports(trees: Dict[str, ast.Module], profile: dict) -> List[str]:
                     name_map[alias] = base[origin]
                 continue
             if "." in origin:
-                mod, f = origin.rsplit(".", 1)
-                if mod in base:                                   # the profile imports the module and says m.f
-                    to_attr[alias] = (base[mod], f)
+                # the same thing imported through another path of the package (a re-export): pkg.util.timerange / pkg.util.floating_point.timerange
+                last = origin.rsplit(".", 1)[1]
+                twins = [b for b in base if b not in now and b.rsplit(".", 1)[-1] == last and b.split(".")[0] == origin.split(".")[0]]
+                if len(twins) == 1:
+                    if base[twins[0]] != alias and base[twins[0]] not in bound_now:
+                        name_map[alias] = base[twins[0]]
+                    continue
+                parts = origin.split(".")
+                hit = False
+                for cut in range(len(parts) - 1, 0, -1):          # the profile imports a module above and says m.x.f
+                    mod = ".".join(parts[:cut])
+                    if cut < len(parts) - 1 and parts[0] == "BPTK_Py":
+                        break                                     # inside the package a bare name stays bare (the definition may have moved)
+                    if mod in base:
+                        to_attr[alias] = (base[mod], ".".join(parts[cut:]))
+                        hit = True
+                        break
+                if hit:
                     continue
                 # `from pkg import mod` in the profile is origin pkg.mod as well: covered by the first branch
             # the profile imports things of this module by name: m.f -> f
@@ -1049,7 +1163,10 @@ def resolve_imports(trees: Dict[str, ast.Module], profile: dict) -> List[str]:
                 if isinstance(node.ctx, ast.Load):
                     if node.id in to_attr:
                         m, f = to_attr[node.id]
-                        return ast.copy_location(ast.Attribute(value=ast.Name(id=m, ctx=ast.Load()), attr=f, ctx=ast.Load()), node)
+                        e: ast.AST = ast.Name(id=m, ctx=ast.Load())
+                        for part in f.split("."):
+                            e = ast.Attribute(value=e, attr=part, ctx=ast.Load())
+                        return ast.copy_location(e, node)
                     if node.id in name_map:
                         node.id = name_map[node.id]
                 return node
